@@ -110,6 +110,14 @@ def reDeser (o : Obj) : Option Obj :=
   | .wm b m xs => ((WM.codec b).get ((WM.codec b).put m)).map fun p => .wm b p.1 xs
   | .efb .. => none
 
+/-- `size_in_bytes()` as written in the Rust source (generated `X.sizeInBytes`) -/
+def sizeInBytesOf (o : Obj) : Option Nat :=
+  match o with
+  | .bv m _ => some (BV.sizeInBytes m) | .r9 m _ => some (R9.sizeInBytes m) | .da m _ => some (DA.sizeInBytes m)
+  | .sa m _ => some (SA.sizeInBytes m) | .ef m _ _ => some (EF.sizeInBytes m) | .cv m _ _ => some (CV.sizeInBytes m)
+  | .db m _ => some (DacB.sizeInBytes m) | .dopt m _ _ => some (DacO.sizeInBytes m) | .ps m _ => some (PS.sizeInBytes m)
+  | .wm b m _ => some (WM.sizeInBytes b m) | .efb .. => none
+
 def kindOf : Obj → String
   | .bv .. => "bv" | .r9 .. => "r9" | .da .. => "da" | .sa .. => "sa" | .efb .. => "efb" | .ef .. => "ef"
   | .cv .. => "cv" | .db .. => "db" | .dopt .. => "do" | .ps .. => "ps"
@@ -488,7 +496,7 @@ def newObj (c : Cfg) (tbl : Tbl) (kind ctor : String) (a : List String) : Option
     | _, _, _ => none
   | "cv", "default", [] => okObj (.cv CV.default 0 #[]) (.eq "ok")
   | "cv", ct, [vs] =>
-    if ct == "from_slice" || ct == "build" then
+    if ct == "from_slice" || ct == "build" || ct == "from_slice_u8" || ct == "from_slice_u32" then
       (list? vs).bind fun l =>
         match CV.fromSlice c l with
         | .ok (some cv) => okObj (.cv cv (if l.isEmpty then 0 else SpecX.bitlen (specMax l)) l.toArray) (.eq "ok")
@@ -499,7 +507,7 @@ def newObj (c : Cfg) (tbl : Tbl) (kind ctor : String) (a : List String) : Option
     else none
   | "db", "default", [] => okObj (.db DacB.default #[]) (.eq "ok")
   | "db", ct, [vs] =>
-    if ct == "from_slice" || ct == "build" then
+    if ct == "from_slice" || ct == "build" || ct == "from_slice_u8" || ct == "from_slice_u32" then
       (list? vs).bind fun l => okObj (.db (DacB.fromSlice c l) l.toArray) (.eq "ok")
     else if ct == "from_slice_i64" then
       (ilist? vs).bind fun l => if l.any (· < 0) then errRes (.eq "err") else none
@@ -524,7 +532,7 @@ def newObj (c : Cfg) (tbl : Tbl) (kind ctor : String) (a : List String) : Option
         (ilist? vs).bind fun l => if !limOk || l.any (· < 0) then errRes (.eq "err") else none
       else none
   | "ps", ct, [vs] =>
-    if ct == "from_slice" || ct == "build" then
+    if ct == "from_slice" || ct == "build" || ct == "from_slice_u8" || ct == "from_slice_u32" then
       (list? vs).bind fun l => match PS.fromSlice c l with
         | .ok (some p) => okObj (.ps p l.toArray) (.eq (okErr (!l.isEmpty)))
         | .ok none => errRes (.eq (okErr (!l.isEmpty)))
@@ -532,6 +540,18 @@ def newObj (c : Cfg) (tbl : Tbl) (kind ctor : String) (a : List String) : Option
     else if ct == "from_slice_i64" then
       (ilist? vs).bind fun l => if l.isEmpty || l.any (· < 0) then errRes (.eq "err") else none
     else none
+  | k, "from_cv", [src] =>
+    let b? : Option Backing := if k == "wmr" then some .r9 else if k == "wmd" then some .da else if k == "wmb" then some .bv else none
+    (match b?, (num? src).bind (tbl.get? ·) with
+    | some b, some (.cv _ _ xs) =>
+      let l := xs.toList
+      let inContract := specMax l + 1 < 2^64
+      let exp := if inContract then Exp.eq (okErr (!l.isEmpty)) else Exp.any
+      (match WM.new c b l with
+      | .ok (some w) => okObj (.wm b w xs) exp
+      | .ok none => errRes exp
+      | .error _ => panicRes exp)
+    | _, _ => none)
   | k, "new", [vs] =>
     let b? : Option Backing := if k == "wmr" then some .r9 else if k == "wmd" then some .da else if k == "wmb" then some .bv else none
     match b?, list? vs with
@@ -549,8 +569,10 @@ def newObj (c : Cfg) (tbl : Tbl) (kind ctor : String) (a : List String) : Option
 
 def qCommonSer (o : Obj) (meth : String) (a : List String) : Option Out :=
   match meth, a with
-  | "ser", [] => (withCodec o fun _ _ cd x => serLine cd x).map fun s => ⟨s, expSer⟩
-  | "size_in_bytes", [] => (withCodec o fun _ _ cd x => toString (cd.size x)).map fun s => ⟨s, sizeExp o⟩
+  | "ser", [] => (withCodec o fun _ _ cd x =>
+      let b := cd.put x
+      s!"ret={b.length} sib={(sizeInBytesOf o).getD 0} bytes={bytesHex b}").map fun s => ⟨s, expSer⟩
+  | "size_in_bytes", [] => (sizeInBytesOf o).map fun n => ⟨toString n, sizeExp o⟩
   | "rt", [ex] => (num? ex).bind fun ex => (withCodec o fun _ _ cd x => rtLine cd x ex).map fun s => ⟨s, expRt⟩
   | "trunc", [offs] =>
     let l? : Option (Option (List Nat)) := if offs == "all" then some none else (list? offs).map some
